@@ -9,6 +9,7 @@ package main
 
 import (
 	"fmt"
+	"github.com/AsaiYusuke/jsonpath"
 	"os"
 	"strconv"
 	"sync"
@@ -69,10 +70,51 @@ func runScenario(sc *conc.Scenario, copies, rounds int) (mismatch string) {
 	return ""
 }
 
+// sharedDocs: paths [a,b) of conc.SharedDocProduct, each evaluated by two goroutines at once on
+// one document object, for every document.
+func sharedDocs(tier, rng string) {
+	paths, docs := conc.SharedDocProduct(tier)
+	a, b := 0, len(paths)
+	fmt.Sscanf(rng, "%d:%d", &a, &b)
+	if b > len(paths) {
+		b = len(paths)
+	}
+	n := 0
+	for i := a; i < b; i++ {
+		f1, err1 := jsonpath.Parse(paths[i], conc.Config(1)...)
+		f2, err2 := jsonpath.Parse(paths[i], conc.Config(2)...)
+		if err1 != nil || err2 != nil {
+			continue
+		}
+		fmt.Printf("SHARED %d %s\n", i, paths[i])
+		for _, dt := range docs {
+			doc := conc.Decode(dt)
+			var wg sync.WaitGroup
+			start := make(chan struct{})
+			for _, f := range []func(interface{}) ([]interface{}, error){f1, f2, f1} {
+				wg.Add(1)
+				go func(f func(interface{}) ([]interface{}, error)) {
+					defer wg.Done()
+					<-start
+					conc.CallOutcome(f, doc)
+				}(f)
+			}
+			close(start)
+			wg.Wait()
+			n += 3
+		}
+	}
+	fmt.Printf("DONE scenarios=%d goroutines=%d\n", b-a, n)
+}
+
 func main() {
 	tier := "quick"
 	if len(os.Args) > 1 {
 		tier = os.Args[1]
+	}
+	if len(os.Args) > 2 && len(os.Args[2]) > 7 && os.Args[2][:7] == "shared:" {
+		sharedDocs(tier, os.Args[2][7:])
+		return
 	}
 	scs := conc.Scenarios(tier)
 	only, from, to := -1, 0, len(scs)
